@@ -16,11 +16,11 @@ import (
 
 const (
 	c14ParentI = "projects/p/instances/i"
-	c14ParentJ = "projects/p/instances/j"
+	c14ParentJ = "projects/p/instances/i2" // the other parent name is a prefix of this one
 )
 
 var c14Parents = []string{c14ParentI, c14ParentI, c14ParentJ}
-var c14IDs = []string{"t", "u", "t"}
+var c14IDs = []string{"t", "t2", "t"} // one id is a prefix of another
 var c14Fams = []string{"f", "g", "h"}
 
 func c14Name(t int) string { return c14Parents[t] + "/tables/" + c14IDs[t] }
